@@ -69,6 +69,8 @@ typedef struct pmc_config
     double quick_budget_s;      // wall budget of the whole quick tier for this binary
     double thorough_budget_s;
     double exec_timeout_s;      // wall limit for a single execution (default 20)
+    int free_block_bound;       // max. number of non-default successor choices at blocking points per
+                                // execution (they cost no deviation); 0 = unlimited
 } pmc_config;
 
 // Parses --tier quick|thorough, --replay <file>, --jobs N, --bound K, --budget S, --only <spec>,
